@@ -57,9 +57,10 @@ Programs ==
      putback |-> [cfg |-> Cf(1, None, None, FALSE),
                   progs |-> <<<<I(1,1,2), SY, I(1,3,1), I(1,4,1), SY, G(1)>>, <<I(2,1,1), G(1)>>>>],
      \* explicit sync() calls beside a thread whose inserts run housekeeping themselves (with scaled
-     \* queues the writer depends on housekeeping being granted again after every sync())
+     \* queues the writer depends on housekeeping being granted again after every sync()); the read
+     \* between the two sync() calls lets the writer enter housekeeping before the second one starts
      syncflag |-> [cfg |-> Cf(2, None, None, FALSE),
-                   progs |-> <<<<I(1,1,1), I(1,2,2), I(1,3,1), I(1,4,2)>>, <<SY, SY>>>>],
+                   progs |-> <<<<I(1,1,1), I(1,2,2), I(1,3,1), I(1,4,2)>>, <<SY, G(2), SY>>>>],
      farw   |-> [cfg |-> Cf(1, None, None, FALSE),
                  progs |-> <<<<I(1,1,1), SY, ADV(1), I(1,3,2), X(1), G(2)>>, <<G(2), SY, G(2)>>>>],
      farx   |-> [cfg |-> Cf(2, 1, None, FALSE),
